@@ -1,4 +1,166 @@
-(** C15 — property theorems (statements + [exact] + [Print Assumptions] only). *)
+(** C15 — property theorems (statements + [exact] + [Print Assumptions] only). Single corrupted byte in a log file. *)
+From Coq Require Import List NArith.
 From RainVerif Require Import Params.
-From RainVerif.model Require Import Bytes Key Log.
+From RainVerif.model Require Import Bytes Key Block Crc Log LogScript Version Lsm DbSpec Codec WalModel.
+From RainVerif.proofs Require Import KeyProofs LogProofs CodecProofs WalProofs.
+Import ListNotations.
 Open Scope N_scope.
+
+Theorem C15a_unmask_checksum_injective : forall m m',
+  m < two32 -> m' < two32 -> unmask_checksum m = unmask_checksum m' -> m = m'.
+Proof. exact unmask_inj. Qed.
+Print Assumptions C15a_unmask_checksum_injective.
+
+Theorem C15a_log_layout_exists : forall recs,
+  exists its,
+    fst (log_append_all 0 recs) = bytes_of crc32c its /\
+    layout_ok BLOCK_SIZE_BYTES HEADER_LENGTH_BYTES 0 its.
+Proof. exact log_layout_exists_inst. Qed.
+Print Assumptions C15a_log_layout_exists.
+
+(** trusted: [crc_detects_single_byte crc32c] (explicit hypothesis); restriction (known finding
+    D11): the file ends in the block that contains the changed byte *)
+Theorem C15a_log_single_byte_detected :
+  crc_detects_single_byte crc32c ->
+  forall (recs : list bytes) (its : list item) (off v : N),
+    let file := fst (log_append_all 0 recs) in
+    file = bytes_of crc32c its ->
+    layout_ok BLOCK_SIZE_BYTES HEADER_LENGTH_BYTES 0 its ->
+    protected_offset HEADER_LENGTH_BYTES 0 its off = true ->
+    v < 256 -> nth (N.to_nat off) file 0 < 256 -> v <> nth (N.to_nat off) file 0 ->
+    blen file <= (off / BLOCK_SIZE_BYTES + 1) * BLOCK_SIZE_BYTES ->
+    exists l1 x l2,
+      recs = l1 ++ x ++ l2 /\ (length x <= 1)%nat /\
+      log_read_all true (update_at (N.to_nat off) v file) = (l1 ++ l2, false).
+Proof. exact log_single_byte_detected. Qed.
+Print Assumptions C15a_log_single_byte_detected.
+
+Theorem C15a_log_single_byte_no_invented_record :
+  crc_detects_single_byte crc32c ->
+  forall (recs : list bytes) (its : list item) (off v : N),
+    let file := fst (log_append_all 0 recs) in
+    file = bytes_of crc32c its ->
+    layout_ok BLOCK_SIZE_BYTES HEADER_LENGTH_BYTES 0 its ->
+    protected_offset HEADER_LENGTH_BYTES 0 its off = true ->
+    v < 256 -> nth (N.to_nat off) file 0 < 256 -> v <> nth (N.to_nat off) file 0 ->
+    blen file <= (off / BLOCK_SIZE_BYTES + 1) * BLOCK_SIZE_BYTES ->
+    forall r, In r (fst (log_read_all true (update_at (N.to_nat off) v file))) -> In r recs.
+Proof. exact log_single_byte_no_invented_record. Qed.
+Print Assumptions C15a_log_single_byte_no_invented_record.
+
+Theorem C15a_wal_single_byte_detected :
+  crc_detects_single_byte crc32c ->
+  forall (bs : list batch) (its : list item) (off v : N),
+    batches_ok bs ->
+    let file := wal_bytes bs in
+    file = bytes_of crc32c its ->
+    layout_ok BLOCK_SIZE_BYTES HEADER_LENGTH_BYTES 0 its ->
+    protected_offset HEADER_LENGTH_BYTES 0 its off = true ->
+    v < 256 -> nth (N.to_nat off) file 0 < 256 -> v <> nth (N.to_nat off) file 0 ->
+    blen file <= (off / BLOCK_SIZE_BYTES + 1) * BLOCK_SIZE_BYTES ->
+    exists b1 x b2,
+      bs = b1 ++ x ++ b2 /\ (length x <= 1)%nat /\
+      wal_recover (update_at (N.to_nat off) v file) = Some (b1 ++ b2).
+Proof. exact wal_single_byte_detected. Qed.
+Print Assumptions C15a_wal_single_byte_detected.
+
+(** the checksum property is in fact a theorem of the model of CRC-32C *)
+Theorem C15a_crc32c_detects_single_byte : crc_detects_single_byte crc32c.
+Proof. exact crc32c_detects_single_byte. Qed.
+Print Assumptions C15a_crc32c_detects_single_byte.
+
+Theorem C15a_log_single_byte_detected_crc32c :
+  forall (recs : list bytes) (its : list item) (off v : N),
+    let file := fst (log_append_all 0 recs) in
+    file = bytes_of crc32c its ->
+    layout_ok BLOCK_SIZE_BYTES HEADER_LENGTH_BYTES 0 its ->
+    protected_offset HEADER_LENGTH_BYTES 0 its off = true ->
+    v < 256 -> nth (N.to_nat off) file 0 < 256 -> v <> nth (N.to_nat off) file 0 ->
+    blen file <= (off / BLOCK_SIZE_BYTES + 1) * BLOCK_SIZE_BYTES ->
+    exists l1 x l2,
+      recs = l1 ++ x ++ l2 /\ (length x <= 1)%nat /\
+      log_read_all true (update_at (N.to_nat off) v file) = (l1 ++ l2, false).
+Proof. exact log_single_byte_detected_crc32c. Qed.
+Print Assumptions C15a_log_single_byte_detected_crc32c.
+
+(** with the fragment list the writer produced ([recs_items]): exactly one record is lost *)
+Theorem C15a_log_single_byte_drops_one :
+  crc_detects_single_byte crc32c ->
+  forall (recs : list bytes) (off v : N),
+    let file := fst (log_append_all 0 recs) in
+    let its := recs_items BLOCK_SIZE_BYTES HEADER_LENGTH_BYTES 0 recs in
+    protected_offset HEADER_LENGTH_BYTES 0 its off = true ->
+    v < 256 -> nth (N.to_nat off) file 0 < 256 -> v <> nth (N.to_nat off) file 0 ->
+    blen file <= (off / BLOCK_SIZE_BYTES + 1) * BLOCK_SIZE_BYTES ->
+    file = bytes_of crc32c its /\
+    layout_ok BLOCK_SIZE_BYTES HEADER_LENGTH_BYTES 0 its /\
+    exists l1 r l2,
+      recs = l1 ++ r :: l2 /\
+      log_read_all true (update_at (N.to_nat off) v file) = (l1 ++ l2, false).
+Proof. exact log_single_byte_drops_one. Qed.
+Print Assumptions C15a_log_single_byte_drops_one.
+
+Theorem C15a_log_single_byte_drops_one_crc32c :
+  forall (recs : list bytes) (off v : N),
+    let file := fst (log_append_all 0 recs) in
+    let its := recs_items BLOCK_SIZE_BYTES HEADER_LENGTH_BYTES 0 recs in
+    protected_offset HEADER_LENGTH_BYTES 0 its off = true ->
+    v < 256 -> nth (N.to_nat off) file 0 < 256 -> v <> nth (N.to_nat off) file 0 ->
+    blen file <= (off / BLOCK_SIZE_BYTES + 1) * BLOCK_SIZE_BYTES ->
+    file = bytes_of crc32c its /\
+    layout_ok BLOCK_SIZE_BYTES HEADER_LENGTH_BYTES 0 its /\
+    exists l1 r l2,
+      recs = l1 ++ r :: l2 /\
+      log_read_all true (update_at (N.to_nat off) v file) = (l1 ++ l2, false).
+Proof. exact log_single_byte_drops_one_crc32c. Qed.
+Print Assumptions C15a_log_single_byte_drops_one_crc32c.
+
+Theorem C15a_wal_single_byte_detected_crc32c :
+  forall (bs : list batch) (its : list item) (off v : N),
+    batches_ok bs ->
+    let file := wal_bytes bs in
+    file = bytes_of crc32c its ->
+    layout_ok BLOCK_SIZE_BYTES HEADER_LENGTH_BYTES 0 its ->
+    protected_offset HEADER_LENGTH_BYTES 0 its off = true ->
+    v < 256 -> nth (N.to_nat off) file 0 < 256 -> v <> nth (N.to_nat off) file 0 ->
+    blen file <= (off / BLOCK_SIZE_BYTES + 1) * BLOCK_SIZE_BYTES ->
+    exists b1 x b2,
+      bs = b1 ++ x ++ b2 /\ (length x <= 1)%nat /\
+      wal_recover (update_at (N.to_nat off) v file) = Some (b1 ++ b2).
+Proof. exact wal_single_byte_detected_crc32c. Qed.
+Print Assumptions C15a_wal_single_byte_detected_crc32c.
+
+Example C15a_example_corrupt_payload_drops_one :
+  length ex_small_file = 64%nat /\
+  wal_recover32 ex_small_file = Some ex_small /\
+  wal_recover32 (update_at 40 77 ex_small_file) = Some [(1, [WDel [3]]); (3, [WDel [5]])].
+Proof. exact ex_corrupt_payload_drops_one. Qed.
+Print Assumptions C15a_example_corrupt_payload_drops_one.
+
+Example C15a_example_corrupt_earlier_block_loses_more :
+  wal_recover32 (update_at 24 77 ex_small_file) = Some [(1, [WDel [3]])] /\
+  wal_recover32 (update_at 4 77 ex_small_file) = Some [].
+Proof. exact ex_corrupt_earlier_block_loses_more. Qed.
+Print Assumptions C15a_example_corrupt_earlier_block_loses_more.
+
+Example C15a_example_theorem_applies :
+  let recs := [[1; 2; 3]; [4; 5]] in
+  protected_offset HEADER_LENGTH_BYTES 0 (recs_items BLOCK_SIZE_BYTES HEADER_LENGTH_BYTES 0 recs) 8
+    = true /\
+  protected_offset HEADER_LENGTH_BYTES 0 (recs_items BLOCK_SIZE_BYTES HEADER_LENGTH_BYTES 0 recs) 5
+    = false /\
+  log_read_all true (update_at 8 77 (fst (log_append_all 0 recs))) = ([[4; 5]], false) /\
+  exists l1 r l2,
+    recs = l1 ++ r :: l2 /\
+    log_read_all true (update_at 8 77 (fst (log_append_all 0 recs))) = (l1 ++ l2, false).
+Proof.
+  cbv zeta. split; [vm_compute; reflexivity|]. split; [vm_compute; reflexivity|].
+  split; [vm_compute; reflexivity|].
+  apply (log_single_byte_drops_one_crc32c [[1; 2; 3]; [4; 5]] 8 77).
+  - vm_compute. reflexivity.
+  - vm_compute. reflexivity.
+  - vm_compute. reflexivity.
+  - vm_compute. intros E. discriminate E.
+  - vm_compute. intros E. discriminate E.
+Qed.
+Print Assumptions C15a_example_theorem_applies.
